@@ -124,7 +124,7 @@ const LONG_TYPES: &[&str] = &["SomeVeryLongTypeNameForTesting", "AnotherLongishT
 const TRAITS: &[&str] = &["Clone", "Debug", "Send", "Sync", "Iterator", "Display", "Default", "SomeLongTraitNameForBounds"];
 const LIFETIMES: &[&str] = &["'a", "'b", "'static", "'_", "'long_lifetime_name"];
 const INTS: &[&str] = &["0", "1", "42", "0xff", "0xDEAD_beef", "0o17", "0b1010_0101", "1_000_000", "7u8", "255usize", "0x1Fi64", "123456789012345"];
-const FLOATS: &[&str] = &["1.0", "0.5", "1e10", "2.5e-3", "1.0f32", "3.14159_26535", "1.", "10f64", "6.02E23"];
+const FLOATS: &[&str] = &["1.0", "0.5", "1e10", "2.5e-3", "1.0f32", "3.14159_26535", "1.", "10f64", "6.02E23", "0.05", "1.05e3", "3.025f64", "10.010", "0.000", "7.0e2", "0.0_5", "2.00_0"];
 const STRS: &[&str] = &[
     "\"\"",
     "\"hello\"",
